@@ -38,7 +38,7 @@ def main():
         results = {}
         if ok:
             for c in checks:
-                for tier in ("quick", "thorough"):
+                for tier in os.environ.get("VF_SEEDED_TIERS", "quick,thorough").split(","):
                     ev = tempfile.mkdtemp(prefix="vf_ev_")
                     r = sh(os.path.join(HERE, "run.py"), c, "--tier", tier, env=dict(os.environ, Y0_REPO=WT, VF_EVIDENCE_DIR=ev))
                     lines = [l[:400] for l in r.stdout.splitlines() if l.startswith(("failure", "fixed finding", "VIOLATION"))]
